@@ -17,15 +17,15 @@ T = {
             'value-level routes are compositions validated by correspondence', 'Coq proof: frame + layout invariant over token-list model'),
     'C04': ('Theorems about Comments.v (claim/unclaim/shift as list surgery): every step permutes only zero-width placeholders, the subsequence of visible tokens is identical, hence printed text unchanged, for every call sequence; read-only API by snapshot monitor.',
             'getters are pure in the model; that the implementation\'s getters do not write is established by the snapshot monitor', 'Coq proof: permutation-of-placeholders invariant'),
-    'C05': ('Theorems over the generic tree model driven by descriptors re-extracted from models/generated on every run (GeneratedWf by vm_compute): the C05 statement as a predicate WF with a verified checker wf_b (sound), preserved by reattach, clone, construction (partial) and by the tree edits of TreeEdit.v at any path (through fields and into items of repeated fields): plugging a re-attached well-formed subtree, inserting an item with its separators (both placements of _insert_tokens), removing an item (both branches of _del_tokens), creating / removing the child of an optional field next to the pivot the extracted chain designates (left and right fields); pop() returns a self-contained well-formed tree; C05_history_all_slots: every sequence of such edits (required, optional, repeated slots) keeps HWF (hence WF); each edit kind is compared with real edits of the implementation on every run (TreeRun.check_ecase2 / check_ocase); counter-lemma: without reattach the result is not WF. wf_b is evaluated on every implementation state the run dumps (parsed, edited, popped, copied, constructed) and the WF statement is monitored after every edit of seeded/focused histories over the whole API.',
+    'C05': ('Theorems over the generic tree model driven by descriptors re-extracted from models/generated on every run (GeneratedWf by vm_compute): the C05 statement as a predicate WF with a verified checker wf_b (sound), preserved by reattach, clone, construction (full: ConstructFull.v) and by the tree edits of TreeEdit.v at any path (through fields and into items of repeated fields): plugging a re-attached well-formed subtree, inserting an item with its separators (both placements of _insert_tokens), removing an item (both branches of _del_tokens), creating / removing the child of an optional field next to the pivot the extracted chain designates (left and right fields); pop() returns a self-contained well-formed tree; C05_history_all_slots: every sequence of such edits (required, optional, repeated slots) keeps HWF (hence WF); each edit kind is compared with real edits of the implementation on every run (TreeRun.check_ecase2 / check_ocase); counter-lemma: without reattach the result is not WF. wf_b is evaluated on every implementation state the run dumps (parsed, edited, popped, copied, constructed) and the WF statement is monitored after every edit of seeded/focused histories over the whole API.',
             'batch/slice forms are sequences of the single-item edits at tree level and are covered by the token-list theorems of C03 plus per-state validation by the verified checker; hand-written classes by correspondence only', 'translator (ast, fail-closed) + Coq proof over generic tree model (WF checker sound, compositional edits) + per-state validation + WF monitor'),
-    'C06': ('Partial: the re-parse statement needs the real lexer/parser (oracle) and is decided by the monitor (print, re-parse, compare content, value views and comment texts after every edit). Proved: separation of repeated-field items is preserved by every delete/insert/replace (RepeatedSep), tight fields demand nothing; formatted layouts enumerate declared fields in order; pivots are the scheme chains and are recomputed on every access (translator refuses a cached pivot).',
-            'lark is an oracle; optional-field separators covered by C03 slot theorems + monitor', 'Coq proof of separation invariant + translator facts; re-parse monitor'),
+    'C06': ('Partial: the re-parse statement needs the real lexer/parser (oracle) and is decided by the monitor (print, re-parse, compare content, value views and comment texts after every edit). Proved: separation of repeated-field items is preserved by every delete/insert/replace (RepeatedSep), tight fields demand nothing; the lexical half over the hand-written recognisers of all 16 terminals that Tokens.v models (TokensStable.v): a complete lexeme followed by text r is recognised with exactly the same extent whenever boundary_K r holds (weakest such condition for 8 terminals), every blank / line end / ', ' is a boundary for every value kind, hence items printed with such gaps scan back into exactly the lexemes (C06_separated_relex; converse witnesses '1'+',234', '#a'+'b', 'BBB'+'USD'); formatted layouts enumerate declared fields in order; pivots are the scheme chains and are recomputed on every access (translator refuses a cached pivot).',
+            'lark (choice of terminal by the LALR state, the contextual lexer) is an oracle: the recognisers are compared with lark and CPython re on every run incl. lexeme+continuation texts; optional-field separators covered by C03 slot theorems + monitor', 'Coq proof of separation invariant + lexeme-extent stability + translator facts; re-parse monitor'),
     'C07': ('Theorems about Store.v, a statement-by-statement Gallina model of token_store.py (explicit handles, block indexes, caches, load factor a variable): invariant + refinement to a plain list for every operation and history and every load factor >= 2; observers equal list functions. Full-state correspondence after every step (LF 2..16) and a plain-list monitor.',
             'contract of splice: inserted tokens are free or inside the removed range', 'Coq proof: invariant + refinement to list spec'),
     'C08': ('Theorems about Store.v: get_position = advance over the concatenated text before the token, get_index = ordinal, under the store invariant; update() keeps the size caches exact in all four branches; token_size is a monoid morphism. Correspondence on text-update-heavy histories + position monitor on stores and parsed documents.',
             '"\\n" is the only line break (as _token_size counts); 0-based positions', 'Coq proof: position theorem over store invariant'),
-    'C09': ('Theorems about Cost.v/Txn.v (branch-for-branch transcription of the CostSpec setters, unordered_node_property, payee/narration): refinement to the record-of-optionals spec from every normal concrete form, refusals atomic, for every assignment sequence. Correspondence + record-model monitor + generic get-after-set on every value property.',
+    'C09': ('Theorems about Cost.v/Txn.v (branch-for-branch transcription of the CostSpec setters, unordered_node_property, payee/narration): refinement to the record-of-optionals spec from every normal concrete form, refusals atomic, for every assignment sequence; MetaValue.v (optional_meta_value_property, update_value, from_value, custom._update_raw with the type tests in source order): get(set v) = v for every value and slot content, in-place iff the kinds match, raw models stored as given, the one refusal. Correspondence + record-model monitor + generic get-after-set on every value property.',
             'component list operations and value codecs validated, not proved', 'Coq proof: refinement to record-of-optionals spec'),
     'C10': ('Theorems about PySeq.v/Views.v: the _raw_indexes cache of every registered view equals the positions of matching elements after any interleaving of mutations through the raw list or any view (handle_splice bisect+shift lemma), and each view operation has Python-list semantics. PySeq validated exhaustively against CPython for small sizes each run.',
             'PySeq is a model of CPython sequence semantics (finite sweep each run)', 'Coq proof: view invariant over all interleavings'),
@@ -37,7 +37,7 @@ T = {
             'decimal arithmetic is a Section variable; lark lexer oracle', 'Coq proof: parse/print/eval over expression trees'),
     'C14': ('Theorems about Comments.v/CommentsOwn/CommentsRestore: ownership invariant (<= 1 owner, claimed flag coherent) preserved by all six claim/unclaim calls, auto-claim sequences and node-level assignment of comments, for every history; unclaim-claim restores (surrounding and interleaving: full, the latter under the position hypothesis claimable_b, refuted without it = known finding for appended entries); the interleaving claimer claims exactly the unclaimed comments of its range (CommentsRange/CommentsComplete: covers, frame, where the scan stops), hence no comment unowned after File.auto_claim_comments and idempotence of the File-level auto-claim without assuming everything claimed; single-claim rule declaratively (iff). Every theorem hypothesis is a boolean evaluated per trace of the implementation. Monitors: ownership tables, none unowned, parse(flag)=parse+claim, idempotence, restore, hand-over histories, rule from the line layout.',
             'whole-layout attribution rule: monitor only (known finding for posting-less transactions)', 'Coq proof: ownership invariant over histories + declarative claim rule'),
-    'C15': ('Theorems about Construct.v (generic from_children over the extracted layouts): constructed node conforms, its kids are the arguments, token texts in layout order with the declared separators, WF under two checked hypotheses (partial); layouts enumerate every declared field once in order (per-run, generated classes). Re-parse equality decided by the monitor over every class with from_value x optional-argument subsets, argument read-back, root comments, File assembly; the verified WF checker runs on every constructed model.',
+    'C15': ('Theorems about Construct.v (generic from_children over the extracted layouts): constructed node conforms, its kids are the arguments, token texts in layout order with the declared separators, WF and whole-store for every generated class and argument combination with both former run-level hypotheses discharged (ConstructFull.v: edges_ok per class by vm_compute, args_fresh = the condition under which the implementation does not refuse), hereditary well-formedness, constructed models are admissible donors (construct-insert-history closes the C05 loop); CustomValues.v (custom._disambiguate_values statement by statement): the disambiguated value list prints to tokens that split back into exactly those values (refuted without disambiguation: [1; -2]), values kept, idempotent, refusal atomic; layouts enumerate every declared field once in order (per-run, generated classes). Re-parse equality decided by the monitor over every class with from_value x optional-argument subsets, argument read-back, root comments, File assembly; the verified WF checker runs on every constructed model.',
             'lark is an oracle; two recorded findings for comments that end up adjacent', 'translator + Coq proof of generic construction; construct-print-reparse monitor'),
     'C16': ('Theorems about Editor.v over a model file system (glob/normpath/parse/print as Section variables with stated laws): unchanged not written, changed = printed model exactly, removed unlinked, added created, each reachable path parsed once (BFS terminates), raise => no write. Real Editor run in temp dirs; FS-operation traces compared.',
             'OS file semantics, glob, normpath are Section variables; encodings/permissions/concurrency not modelled', 'Coq proof over model file system + trace correspondence'),
